@@ -139,14 +139,19 @@ def pathStr (p : List String) : String := ".".intercalate p
 def handleCall (j : Json) : Except String Json := do
   let classes ← j.getObjVal? "classes"
   let root ← getS j "root"
-  let rmHist ← (← getA j "rand_mode").mapM fun t => do
+  -- several top-level instances may exist; histories carry the instance number, and an
+  -- instance sees only its own toggles (whenever the other instances were created)
+  let me := (getN j "inst").toOption.getD 0
+  let rmAll ← (← getA j "rand_mode").mapM fun t => do
     let a ← t.getArr?
     let p ← (← (a[0]?.getD Json.null).getArr?).toList.mapM (·.getStr?)
-    pure (p, (← (a[1]?.getD Json.null).getBool?))
-  let cmHist ← (← getA j "cmode").mapM fun t => do
+    pure (((a[2]?.getD (Json.num 0)).getNat?.toOption.getD 0), p, (← (a[1]?.getD Json.null).getBool?))
+  let rmHist := (rmAll.filter fun t => t.1 == me).map (·.2)
+  let cmAll ← (← getA j "cmode").mapM fun t => do
     let a ← t.getArr?
     let p ← (← (a[0]?.getD Json.null).getArr?).toList.mapM (·.getStr?)
-    pure (p, (← (a[1]?.getD Json.null).getStr?), (← (a[2]?.getD Json.null).getBool?))
+    pure (((a[3]?.getD (Json.num 0)).getNat?.toOption.getD 0), p, (← (a[1]?.getD Json.null).getStr?), (← (a[2]?.getD Json.null).getBool?))
+  let cmHist := (cmAll.filter fun t => t.1 == me).map (·.2)
   let randMode : List String → Bool → Bool := fun p dflt =>
     match rmHist.reverse.find? (fun t => t.1 == p) with | some t => t.2 | none => dflt
   let (tree, inst) ← (instantiate classes root [] false randMode 8).run {}
